@@ -47,6 +47,7 @@ def check(chk, fx):
     lexrules.iter_rule(chk, fx)
     lexrules.charidx(chk, fx)
     lexrules.tag(chk, fx)
+    lexrules.lenw(chk, fx)
     tix.report(chk, fx)
     idxrule.report(chk, fx, lambda q: q.startswith(R) or q.startswith(P + "get_current_term") or
                    q.startswith(P + "create_lexer") or q.startswith(P + "shift") or q.startswith(P + "skip_whitespace"),
